@@ -16,6 +16,10 @@ Accepted subset (anything else inside a translated function is a TranslationErro
   IE           `self._data` | tee-bound local | `it.islice(IE, CE)` | `it.chain(IE, IE)` | `xmap(func, IE)` |
                `xfilter(func, IE)` | `g(IE)` (the nested generator) | `Stream(*other)._data`
   RET          `next(IE)` | `constructor(IE)` | `self` | `Stream(IE)` | `self.copy().take(n=CE, constructor=constructor)`
+  Stream.__init__  a tree of `if C: … elif C: … else: …` with ONE statement per arm; C = `len(dargs) == k` |
+               `isinstance(dargs[0], Iterable)` | `all(isinstance(v, Iterable) for v in dargs)` |
+               `not any(isinstance(v, Iterable) for v in dargs)`; leaves `raise Name(...)` | `self._data = ` `iter(dargs[0])` |
+               `it.repeat(dargs[0])` | `it.chain(*[iter(v) for v in dargs])` | `it.cycle(dargs)`
   thub         `return ARM if isinstance(name, name) else ARM`, ARM = `data` | `StreamTeeHub(names)`
   hub __init__ `super(StreamTeeHub, self).__init__(names)` | `v = super(StreamTeeHub, self).__iter__()` |
                `self._iters = list(it.tee(name, name))`
@@ -26,7 +30,7 @@ Accepted subset (anything else inside a translated function is a TranslationErro
                `try: return self._iters.pop()  except IndexError: raise Name(...)` | a plain body
 
 Normalised away: whitespace, comments, docstrings, the names of tee-bound locals (renamed t0, t1, … in binding
-order; locals of StreamTeeHub.__init__: v0, v1, …), the generator variables of tee, the name of the nested generator and of its loop variables, the message of a `raise`.
+order; locals of StreamTeeHub.__init__: v0, v1, …), the generator variables of tee and of Stream.__init__, the name of the nested generator and of its loop variables, the message of a `raise`.
 """
 import ast
 import os
@@ -41,8 +45,6 @@ HUB_DEFS = ("take", "copy", "__iter__")
 HUB_LAMBDAS = ("limit", "skip", "append", "map", "filter")
 # anchored functions that stay hand-modelled (reported in the evidence)
 NOT_TRANSLATED = {
-    "Stream.__init__": "argument-list rules (len / isinstance(., Iterable) / all / any over *dargs): hand model elabArgs / mkSrc, "
-                       "tied by the `calls` histories",
     "Stream.__iter__": "`return self._data`: the object plumbing of the history model (pool of objects), no body to translate",
     "StreamTeeHub.__del__": "object-lifetime effect outside the Lean model (behavioural extra check)",
     "count spellings (elabTake / elabLimit / elabSkip)": "what CPython's isinf / round / islice accept for bool, Fraction, huge ints: "
@@ -453,6 +455,80 @@ def hub_init(fn):
 
 
 # ------------------------------------------------------------------------------------------------
+# Stream.__init__
+# ------------------------------------------------------------------------------------------------
+def stream_init(fn):
+    """the if / elif / else tree over `*dargs` -> an `ITree` term"""
+    a = fn.args
+    if fn.decorator_list or a.vararg is None or a.kwarg or a.kwonlyargs or a.defaults or len(a.args) != 1:
+        _fail(fn, "Stream.__init__: signature outside the subset (self, *args)")
+    da = a.vararg.arg
+
+    def arg0(node):
+        return (isinstance(node, ast.Subscript) and _is_name(node.value, da) and isinstance(node.slice, ast.Constant)
+                and type(node.slice.value) is int and node.slice.value == 0)
+
+    def each_iterable(node, fname):
+        """`fname(isinstance(v, Iterable) for v in dargs)`"""
+        if not (_plain_call(node, 1) and _is_name(node.func, fname) and isinstance(node.args[0], ast.GeneratorExp)):
+            return False
+        g = node.args[0]
+        if len(g.generators) != 1:
+            return False
+        c = g.generators[0]
+        return (not c.ifs and not c.is_async and isinstance(c.target, ast.Name) and _is_name(c.iter, da)
+                and _plain_call(g.elt, 2) and _is_name(g.elt.func, "isinstance") and _is_name(g.elt.args[0], c.target.id)
+                and _is_name(g.elt.args[1], "Iterable"))
+
+    def icond(node):
+        if (isinstance(node, ast.Compare) and len(node.ops) == 1 and isinstance(node.ops[0], ast.Eq)
+                and _plain_call(node.left, 1) and _is_name(node.left.func, "len") and _is_name(node.left.args[0], da)
+                and isinstance(node.comparators[0], ast.Constant) and type(node.comparators[0].value) is int
+                and node.comparators[0].value >= 0):
+            return "(.lenEq %d)" % node.comparators[0].value
+        if _plain_call(node, 2) and _is_name(node.func, "isinstance") and arg0(node.args[0]) \
+                and _is_name(node.args[1], "Iterable"):
+            return ".isIter0"
+        if each_iterable(node, "all"):
+            return ".allIter"
+        if isinstance(node, ast.UnaryOp) and isinstance(node.op, ast.Not) and each_iterable(node.operand, "any"):
+            return ".noneIter"
+        _fail(node, "Stream.__init__: condition outside the subset")
+
+    def idata(node):
+        if _plain_call(node, 1) and _is_name(node.func, "iter") and arg0(node.args[0]):
+            return ".iter0"
+        if _plain_call(node, 1) and _is_it(node.func, "repeat") and arg0(node.args[0]):
+            return ".repeat0"
+        if _plain_call(node, 1) and _is_it(node.func, "cycle") and _is_name(node.args[0], da):
+            return ".cycleArgs"
+        if (isinstance(node, ast.Call) and _is_it(node.func, "chain") and not node.keywords and len(node.args) == 1
+                and isinstance(node.args[0], ast.Starred) and isinstance(node.args[0].value, ast.ListComp)):
+            lc = node.args[0].value
+            c = lc.generators[0] if len(lc.generators) == 1 else None
+            if (c is not None and not c.ifs and not c.is_async and isinstance(c.target, ast.Name) and _is_name(c.iter, da)
+                    and _plain_call(lc.elt, 1) and _is_name(lc.elt.func, "iter") and _is_name(lc.elt.args[0], c.target.id)):
+                return ".chainIters"
+        _fail(node, "Stream.__init__: data expression outside the subset")
+
+    def block(body):
+        body = [s for s in body if not _is_doc(s)]
+        if len(body) != 1:
+            _fail(fn if not body else body[0], "Stream.__init__: one statement per arm")
+        s = body[0]
+        if isinstance(s, ast.Raise):
+            return '(.raise "%s")' % _raise_kind(s)
+        if isinstance(s, ast.Assign) and len(s.targets) == 1 and _is_data(s.targets[0]):
+            return "(.setData %s)" % idata(s.value)
+        if isinstance(s, ast.If):
+            if not s.orelse:
+                _fail(s, "Stream.__init__: an `if` without `else` (the data slot may stay unset)")
+            return "(.ite %s %s %s)" % (icond(s.test), block(s.body), block(s.orelse))
+        _fail(s, "Stream.__init__: statement outside the subset")
+    return block(fn.body)
+
+
+# ------------------------------------------------------------------------------------------------
 # lazy_itertools.tee
 # ------------------------------------------------------------------------------------------------
 def _tuple_genexp(node):
@@ -566,6 +642,9 @@ def parse(text, itext=None):
     progs.append(("thub", thub_def(found[0])))
     progs.append(("hubInit", init_term))
     sigs += [init_sig, ("thub", _sig(found[0]))]
+    fn = _one(sm, "Stream", "__init__", ast.FunctionDef)
+    progs.append(("init", stream_init(fn)))
+    sigs.append(("Stream.__init__", _sig(fn)))
     found = [n for n in itree.body if isinstance(n, ast.FunctionDef) and n.name == "tee"]
     if len(found) != 1:
         raise TranslationError("lazy_itertools.tee: found %d times" % len(found))
@@ -591,10 +670,10 @@ def translate(text, itext=None):
              "   Do not edit: rewritten on every check. -/",
              "import ALV.Model.C03Src", "namespace ALV.Gen.C03", "open ALV.C03.Src", ""]
     for name, term in progs:
-        ty = {"thub": "ThubBody", "hubInit": "List HIStmt", "tee": "TeeBody"}.get(name, "HubBody" if name.startswith("hub") else "Body")
+        ty = {"thub": "ThubBody", "hubInit": "List HIStmt", "tee": "TeeBody", "init": "ITree"}.get(name, "HubBody" if name.startswith("hub") else "Body")
         lines += ["def %s : %s :=" % (name if name != "filter" else "filter", ty), "  " + term, ""]
     lines += ["def progs : Progs :=",
-              "  { " + ", ".join("%s := %s" % (n, n) for n, _ in progs) + " }", "",
+              "  { " + ", ".join("%s := %s" % (n, n) for n, _ in progs if n != "init") + " }", "",
               "/-- (qualified name, parameters with the source text of their default) -/",
               "def sigs : List (String × List (String × Option String)) := ["]
     rows = []
@@ -670,6 +749,14 @@ EDITS = [
     ("tee: arms swapped", "    return tuple(Stream(cp) for cp in it.tee(data, n))\n  else:\n    return tuple(data for unused in xrange(n))",
      "    return tuple(data for unused in xrange(n))\n  else:\n    return tuple(Stream(cp) for cp in it.tee(data, n))"),
     ("tee: default of n changed", "def tee(data, n=2):", "def tee(data, n=3):"),
+    ("init: no-argument error kind", 'raise TypeError("Missing argument(s)")', 'raise ValueError("Missing argument(s)")'),
+    ("init: one-argument arms swapped", "        self._data = iter(dargs[0])\n      else:\n        self._data = it.repeat(dargs[0])",
+     "        self._data = it.repeat(dargs[0])\n      else:\n        self._data = iter(dargs[0])"),
+    ("init: all replaced by any", "if all(isinstance(arg, Iterable) for arg in dargs):", "if any(isinstance(arg, Iterable) for arg in dargs):"),
+    ("init: mixed arguments cycle instead of raising", "elif not any(isinstance(arg, Iterable) for arg in dargs):\n        self._data = it.cycle(dargs)\n      else:\n        raise TypeError(",
+     "else:\n        self._data = it.cycle(dargs)\n        raise TypeError("),
+    ("init: iterators of the chain asked lazily", "it.chain(*[iter(arg) for arg in dargs])", "it.chain(*dargs)"),
+    ("init: len test 1 -> 2", "elif len(dargs) == 1:", "elif len(dargs) == 2:"),
     ("take: default of n changed", "def take(self, n=None, constructor=list):", "def take(self, n=1, constructor=list):"),
 ]
 IHARMLESS = [
@@ -678,6 +765,11 @@ IHARMLESS = [
      "    return tuple(Stream(c) for c in it.tee(data, n))\n  return tuple(data for _ in xrange(n))"),
 ]
 HARMLESS = [
+    ("init: generator variables renamed, comment dropped",
+     "      if all(isinstance(arg, Iterable) for arg in dargs):", "      if all(isinstance(a, Iterable) for a in dargs):",
+     "        self._data = it.chain(*[iter(arg) for arg in dargs])", "        self._data = it.chain(*[iter(x) for x in dargs])",
+     "      elif not any(isinstance(arg, Iterable) for arg in dargs):\n        self._data = it.cycle(dargs)",
+     "      elif not any(isinstance(y, Iterable) for y in dargs):\n\n        self._data = it.cycle(dargs)"),
     ("hub init: local renamed", "    iter_self = super(StreamTeeHub, self).__iter__()\n    self._iters = list(it.tee(iter_self, n))",
      "    mine = super(StreamTeeHub, self).__iter__()\n    self._iters = list(it.tee(mine, n))"),
     ("comments / blank lines / docstring", "    a, b = it.tee(self._data) # 2 generators, not thread-safe",
